@@ -19,7 +19,16 @@ from ..report import Report
 
 PROP = "C17"
 
-ARGS = {
+class _Args(dict):
+    """fixed argument keys plus the family n0, n1, ... = ((100,), {}), ((101,), {}), ... for pumped pools"""
+
+    def __missing__(self, name):
+        if name.startswith("n") and name[1:].isdigit():
+            return ((100 + int(name[1:]),), {})
+        raise KeyError(name)
+
+
+ARGS = _Args({
     "p1": ((1,), {}),
     "p2": ((2,), {}),
     "m1": ((-1,), {}),
@@ -27,7 +36,7 @@ ARGS = {
     "kxy": ((), {"x": 1, "y": 2}),
     "kyx": ((), {"y": 2, "x": 1}),
     "p1k": ((1,), {"x": 1}),
-}
+})
 
 # class kinds: own = own default metaclass; shared0/shared1 = two classes on one metaclass object;
 # sub0 = subclass of class index 0; custom = own metaclass with hashfunc args[0] % 2
@@ -46,6 +55,14 @@ POOLS = {
         dict(classes=["own", "custom", "sub1"], keys=["p1", "p2", "m2"]),
         dict(classes=["own"], keys=["p1", "m1", "m2", "kxy", "kyx", "p1k"]),
     ],
+}
+
+
+# pumped pools: one class with n live keys n0..n(n-1) (one instance each), then every history of <= depth
+# ops on the focus keys {first, last, two new ones} -- behaviour depending on the number of live instances
+PUMPED = {
+    "quick": dict(ns=[0, 1, 2, 3, 4, 7, 8, 9, 12], depth=4),
+    "thorough": dict(ns=list(range(0, 13)) + [16, 17, 32, 33], depth=5),
 }
 
 
@@ -100,14 +117,39 @@ class World:
             self.kind.append("custom" if kind == "custom" or (kind.startswith("sub") and self.kind[int(kind[3:])] == "custom") else "default")
         self.model = [dict() for _ in self.cls]      # model key -> real instance
         self.keep = []                                # keep every instance alive (stable id())
+        for k in range(spec.get("pumped", 0)):
+            a = ARGS[f"n{k}"]
+            o = self.cls[0](*a[0], **a[1])
+            self.keep.append(o)
+            self.model[0][self.mkey(0, f"n{k}")] = o
 
     def mkey(self, c, kname):
         return model_key(self.kind[c], ARGS[kname])
 
+    def dead(self, c):
+        """the first instance of class c that was created earlier and is no longer mapped by any key"""
+        live = {id(x) for x in self.model[c].values()}
+        for o in self.keep:
+            if type(o) is self.cls[c] and id(o) not in live:
+                return o
+        return None
+
+    def focus_instances(self, c):
+        """distinct live instances reachable through the pool's (focus) keys, in key order"""
+        out = []
+        for kname in self.spec["keys"]:
+            o = self.model[c].get(self.mkey(c, kname))
+            if o is not None and not any(o is x for x in out):
+                out.append(o)
+        return out
+
+    def all_keys(self):
+        return [f"n{k}" for k in range(self.spec.get("pumped", 0))] + list(self.spec["keys"])
+
     def instances(self, c):
         """distinct live instances of class c in canonical order (by smallest key name reaching them)"""
         out = []
-        for kname in self.spec["keys"]:
+        for kname in self.all_keys():
             o = self.model[c].get(self.mkey(c, kname))
             if o is not None and not any(o is x for x in out):
                 out.append(o)
@@ -173,7 +215,7 @@ def observe(w):
     bad = []
     before = real_state(w)
     for c, cls in enumerate(w.cls):
-        for kname in w.spec["keys"]:
+        for kname in w.all_keys():
             a = ARGS[kname]
             if w.kind[c] == "custom" and not a[0]:
                 continue
@@ -217,7 +259,10 @@ class Sys:
                     continue
                 out.append(("new", c, kname))
         for c in range(nc):
-            for j in range(len(w.instances(c))):
+            cands = list(range(len(w.focus_instances(c))))
+            if w.dead(c) is not None:
+                cands.append("dead")         # an instance the caller still holds although no key maps to it
+            for j in cands:
                 for kname in self.spec["keys"]:
                     if w.kind[c] == "custom" and not ARGS[kname][0]:
                         continue
@@ -261,7 +306,7 @@ class Sys:
                 return ("ret", "instance")
             if k == "add_mapping":
                 c, j, a = op[1], op[2], ARGS[op[3]]
-                inst = w.instances(c)[j]
+                inst = w.dead(c) if j == "dead" else w.focus_instances(c)[j]
                 S.add_mapping(inst, *a[0], **a[1])
                 w.model[c][w.mkey(c, op[3])] = inst
                 return ("ret", None)
@@ -357,6 +402,26 @@ def run(tier, seed, log):
                          "max_depth": res.depth, "fixpoint": res.exhaustive, "cap_hit": res.cap,
                          "wall_s": round(res.wall, 1)})
         samples += [{"pool": spec, "history": h} for h in res.sample_histories[-3:]]
+    pump = PUMPED[tier]
+    pstates = ptrans = 0
+    for n in pump["ns"]:
+        keys = sorted({"n0", f"n{max(n - 1, 0)}", f"n{n}", f"n{n + 1}"}, key=lambda k: int(k[1:]))
+        spec = {"classes": ["own"], "keys": keys, "pumped": n}
+        res = engine_h.explore(Sys(spec), seed=seed, max_depth=pump["depth"])
+        for fp, (cnt, rec) in res.viols.items():
+            rec = dict(rec)
+            rec["pool"] = spec
+            rep.add("pumped|" + fp, rec, cnt)
+        pstates += res.states
+        ptrans += res.transitions
+        tot["states"] += res.states
+        tot["transitions"] += res.transitions
+        tot["validated"] += res.validated
+        tot["nontrivial"] += res.nontrivial
+    log(f"[{PROP}] pumped classes n={pump['ns']} depth<={pump['depth']}: states={pstates} transitions={ptrans}")
+    pools_ev.append({"pool": "pumped class (n live keys; every history of <= depth ops on the first / last / two new keys)",
+                     "live_key_counts": pump["ns"], "depth": pump["depth"], "states": pstates,
+                     "transitions": ptrans, "fixpoint": False})
     rep.coverage = {
         "states": tot["states"], "transitions": tot["transitions"],
         "traces_validated_against_impl": tot["validated"],
